@@ -192,6 +192,7 @@ def run(ctx):
         "'nothing dropped' is demanded when fewer than 2047 bytes precede the first post-link byte on the terminal (upper bound of the ring fill at link time); byte-exact drop-oldest semantics of the ring itself is the RingBuf part",
         "terminals are the real tty.VT (900 lines of scrollback) behind a recording wrapper, consoles are recording mocks without font/logo support; device registry reset through the overlay shim harness/hal/c16_device_shim.go; what a terminal HOLDS at the end is read from the real VT buffer through harness/hal/c16_tty_shim.go",
         "the active pair must be attached exactly once: a second AttachTo of the active terminal blanks it (tty.VT) and is a violation",
+        "input domain (audited against the quantifier): not covered are log chunks with backspace / carriage return, logging from inside AttachTo/SetState, a driver writing after the link through a writer captured before it, consoles with font/logo support",
         "trusted Go: scenario decoder, mock drivers and event logger in harness/hal, segment encoder in harness/kfmt/c16rb_ring_test.go",
     ]
     d = ctx.spec_dir("kfmt", "hal")
